@@ -507,10 +507,11 @@ static void op_frontend(val *c)
 				archive_entry_set_ino64(ae, ino);
 				archive_entry_set_nlink(ae, 2);
 				archive_entry_set_hardlink(ae, NULL);
-				archive_entry_set_size(ae, 0);
+				/* newc: a later member of a link group may carry the body */
+				archive_entry_set_size(ae, (la_int64_t)v_len(v_at(e, 5)));
 			} else {
 				archive_entry_set_ino64(ae, next_ino);
-				if (type == 0 && ninos < 256) {
+				if ((type == 0 || type == 2) && ninos < 256) {
 					inos[ninos].path = strdup(archive_entry_pathname(ae));
 					inos[ninos].ino = next_ino; ninos++;
 					archive_entry_set_nlink(ae, 2);
@@ -518,6 +519,8 @@ static void op_frontend(val *c)
 				next_ino++;
 			}
 		}
+		if (!archive_entry_size_is_set(ae))
+			archive_entry_set_size(ae, 0);	/* the cpio writer insists on a size */
 		if (archive_write_header(w, ae) >= ARCHIVE_WARN) {
 			nfiles++;
 			if (archive_entry_size(ae) > 0 && v_len(v_at(e, 5)) > 0)
